@@ -470,7 +470,7 @@ def assemble_walk(repo: Repo, prop: str = PROP, rule: str = "C06.ASSEMBLE-WALK")
         o.set("geometry", None)
         return o
 
-    for deleted in (None, 0, 1, 2, 3, 4, 5):
+    for deleted in (None, 0, 1, 2, 3, 4, 5, "assembled"):
         ops = [mk_op(f"op{i}") for i in range(6)]
         shape = Obj("shape", cls=repo.cls("construct.shape.Shape"))
         shape.set("operations", ops[1:5])
@@ -478,13 +478,16 @@ def assemble_walk(repo: Repo, prop: str = PROP, rule: str = "C06.ASSEMBLE-WALK")
         depot = [ops[0], shape, ops[5]]
         mesh = Obj("mesh", cls=repo.cls("mesh.Mesh"))
         mesh.set("depot", depot)
-        mesh.set("deleted", {ops[deleted]} if deleted is not None else set())
+        mesh.set("deleted", {ops[deleted]} if isinstance(deleted, int) else set())
         empty_defaults(repo, repo.cls("mesh.Mesh"), mesh)
         bl = Obj("block_list")
         bl.set("blocks", [])
         mesh.set("block_list", bl)
         for nm in ("edge_list", "patch_list", "face_list", "geometry_list", "vertex_list"):
             mesh.set(nm, Obj(nm))
+        mesh.get("vertex_list").set("vertices", [Sym("V:old")] if deleted == "assembled" else [])
+        if deleted == "assembled":
+            bl.get("blocks").append(Obj("block-of-the-first-assembly"))
         ev_log = []
 
         def hook(ev, call: ast.Call, name, ev_log=ev_log, bl=bl):
@@ -529,6 +532,18 @@ def assemble_walk(repo: Repo, prop: str = PROP, rule: str = "C06.ASSEMBLE-WALK")
             continue
         except NotEvaluable as err:
             raise AnalysisError(f"Mesh.assemble not evaluable on the symbolic depot: {err}") from err
+        if deleted == "assembled":
+            # a mesh that is assembled already: a second assemble() must not add every block (vertex, patch, face) a second time
+            r.check(
+                len(bl.get("blocks")) == 1 and not ev_log,
+                fn,
+                "assemble() on an assembled mesh adds nothing",
+                f"Mesh.assemble on a mesh that is assembled already appends {len(bl.get('blocks')) - 1} more block(s) for the same operations: assemble(); assemble(); write() writes every block twice, "
+                "a history the single assembly does not reproduce",
+                fn.node,
+                key="assembled-twice",
+            )
+            continue
         live = [o for i, o in enumerate(ops) if i != deleted]
         blocks = bl.get("blocks")
         problems = []
